@@ -282,13 +282,9 @@ def run(ctx):
         fn = ctx.inl(fn)        # the header loop may be a private helper taking `&response.headers`
         du_ = du_of(fn)
         found = False
-        for bid, t in fn.calls():
-            c = callee_name(t) or ""
-            if "IntoIterator" in c and c.endswith("::into_iter") and t["args"]:
-                a = t["args"][0]
-                v = du_.val_operand(a)
-                while v[0] == "call" and v[1] and v[1].endswith(("::iter", "::iter_mut")) and v[2]:
-                    v = v[2][0]              # `headers.iter()`: still every element, in order
+        from .parse_common import fully_iterated
+        for bid, v in fully_iterated(fn, du_, "header::Header"):
+                # a `for` loop over the list, or `headers.iter().map(line).collect()`: every element, in order
                 tgt = val_ref_target(du_, v) if v[0] == "call" else (v[1] if v[0] in ("place", "ref") else None)
                 fields = [p[2] for p in tgt[1] if isinstance(p, tuple) and p[0] == "f"] if tgt is not None else []
                 if fields == ["headers"]:
